@@ -250,7 +250,10 @@ def split_compound(compound_unit):
     :returns: A tuple containing the atomic units.
     :rtype: tuple
     """
-    opt_pup = re.compile(PREFIXES + "?" + UNITS + POWER + "?")
+    # an atomic unit ends where a separator follows or the string ends
+    # (otherwise "mol" is taken for "m", "mmol" for "mm", "Sv" for "S" ...)
+    opt_pup = re.compile(PREFIXES + "?" + UNITS + POWER + "?" +
+                         "(?= *(\\*|/|$))")
     match = opt_pup.match(compound_unit)
     sep = ""
     atomic_units = []
